@@ -18,13 +18,16 @@ def ints(a):
     return [int(x) for x in np.asarray(a).ravel().tolist()]
 
 
+_WIDE = [False]          # values beyond 32 bits travel as four 16-bit limbs (C14 only: the operation only moves values)
+
+
 def proj_rl(r):
     dense = np.asarray(r.to_array())
     vals = np.asarray(r.values)
     dt = dt_of(vals.dtype)
     ends = ints(r.ends)
     ev = ints(r.starts) + ([ends[-1]] if ends else [0])
-    return ["rl", dt, enc_seq(dense, False, dt_of(dense.dtype)), ev, enc_seq(vals, False, dt)]
+    return ["rl", dt, enc_seq(dense, _WIDE[0], dt_of(dense.dtype)), ev, enc_seq(vals, _WIDE[0], dt)]
 
 
 def rows_of(x):
@@ -183,11 +186,12 @@ def py_sel(sel):
 def op_roundtrip(c, o):
     dt, seq, how = c[1], c[2], c[3]
     a = dec_seq(seq, dt)
+    _WIDE[0] = any(isinstance(v, (list, tuple)) for v in seq) and dt[0] in "iu"
     r = RunLengthArray.from_array(a if o.get("input", "array") == "array" or len(seq) == 0 or dt not in ("i8", "f8", "b1") else a.tolist())
     if how == "to_array":
-        return ER.proj_any(r.to_array(), False, "flat")
+        return ER.proj_any(r.to_array(), _WIDE[0], "flat")
     if how == "asarray":
-        return ER.proj_any(np.asarray(r) if o.get("conv", "asarray") == "asarray" else np.array(r), False, "flat")
+        return ER.proj_any(np.asarray(r) if o.get("conv", "asarray") == "asarray" else np.array(r), _WIDE[0], "flat")
     if how == "len":
         return ["int", int(len(r))]
     if how == "size":
@@ -206,10 +210,14 @@ def op_getitem(c, o):
     r = mk_rl(dt, seq, o.get("via", "from_array"))
     before = snap(r)
     k = idx[0]
+    idt = o.get("idxdt", "i8")                      # narrow index dtypes only where every position fits
+    pos = [int(idx[1])] if k == "int" else [int(i) for i in idx[1]] if k == "list" else []
+    if idt != "i8" and not all(np.iinfo(DT2NP[idt]).min <= p <= np.iinfo(DT2NP[idt]).max for p in pos):
+        idt = "i8"
     if k == "int":
-        res = r[int(idx[1])] if not o.get("npint") else r[np.int64(idx[1])]
+        res = r[int(idx[1])] if not o.get("npint") else r[DT2NP[idt](idx[1])]
     elif k == "list":
-        res = r[[int(i) for i in idx[1]]] if o.get("listkind", "list") == "list" else r[np.array(idx[1], dtype=int)]
+        res = r[[int(i) for i in idx[1]]] if o.get("listkind", "list") == "list" else r[np.array(idx[1], dtype=DT2NP[idt])]
     elif k == "mask":
         res = r[np.array(idx[1], dtype=bool)]
     elif k == "rlmask":
@@ -357,6 +365,7 @@ OPS = {"rl_roundtrip": op_roundtrip, "rl_getitem": op_getitem, "rl_ufunc": op_uf
 def execute(case, opts=None):
     o = opts or {}
     del _SOURCES[:]
+    _WIDE[0] = False
     _OBJVIA[0] = o.get("objvia", "direct")
     try:
         out = OPS[case[0]](case, o)
